@@ -2,7 +2,7 @@
    Print Assumptions beneath.  Definitions: C09/Model.v (generated parts: C09/Gen.v, regenerated
    from wsgi.py, sansio/utils.py and _internal.py on every run); spec-side predicates
    (core_spec, readinto_spec, read_spec, trace_ok, benign, wrapper_spec, wf) at the end of Model.v. *)
-From Wz Require Import lib.Bytes C09.Base C09.Gen C09.Model C09.Proofs.
+From Wz Require Import lib.Bytes C09.Base C09.Gen C09.Model C09.GenRI C09.Proofs.
 Open Scope N_scope.
 
 (* the pattern the hand-written matcher stands for, the chunked literal, the slice repair and a
@@ -22,6 +22,18 @@ Print Assumptions C09_source_pins.
 Theorem C09_readinto_exact : forall s u kind b, readinto s u kind b = readinto_spec s u b.
 Proof. exact readinto_eq. Qed.
 Print Assumptions C09_readinto_exact.
+
+(* LimitedStream.readinto translated statement by statement (C09/GenRI.v: every assignment, test,
+   try/except, hook call, slice assignment and the _pos update of the current source, threading
+   _pos, the underlying stream and the caller's buffer) computes exactly what the model's
+   readinto_core does: return value, new _pos, underlying stream and buffer contents, or the
+   exception raised.  All theorems about readinto / read / readall therefore speak about the
+   translated source text *)
+Theorem C09_readinto_translated : forall s u kind b,
+  readinto_gen (is_max s) (Z.of_N (limit s)) (Z.of_N (pos s)) kind u b
+  = embed b (readinto_core ri_slice_fix s u kind (lenN b)).
+Proof. exact readinto_gen_core. Qed.
+Print Assumptions C09_readinto_translated.
 
 Theorem C09_read_exact : forall s u n, read s u n = read_spec s u n.
 Proof. exact read_eq. Qed.
